@@ -440,6 +440,17 @@ func (g *TxnGen) genTxn(t *rapid.T, st State) []Op {
 				g.Excluded["name-clash-generated"] += 0
 			} else {
 				opName[i] = fmt.Sprintf("n%d", len(names))
+				if g.Cfg.NameBias {
+					// legal <id>s of other spellings: upper-case letters, and exactly as long as a uuid
+					switch rapid.IntRange(0, 3).Draw(t, "nameform") {
+					case 1:
+						opName[i] = fmt.Sprintf("Row_N%d", len(names))
+						Label("generator", "name:upper-case")
+					case 2:
+						opName[i] = fmt.Sprintf("row_%032x", len(names))
+						Label("generator", "name:36-characters")
+					}
+				}
 				names = append(names, opName[i])
 				g.nameTable[opName[i]] = tb.Name
 			}
